@@ -80,6 +80,7 @@ package ice
 //@   site call setSelectedPair#1 assert C20 never-back-to-an-older-nomination: *pendingRequest.nominationValue > lastBefore && s.lastConfirmedNomination != nil && *s.lastConfirmedNomination == *pendingRequest.nominationValue
 //@   site call handleInboundBindingSuccess#1 ghost s.agent.gTxOK := result0
 //@   site call responseSymmetric#1 assert C02 symmetric-check-after-transaction: s.agent.gTxOK && arg0 == pendingRequest
+//@   site call responseSymmetric#1 assert C03 C02 checked-against-the-candidate-the-response-arrived-on: arg1 == local
 //@   site call responseSymmetric#1 ghost s.agent.gSymOK := result
 //@   site call findPair#1 assert C02 pair-lookup-after-checks: s.agent.gTxOK && s.agent.gSymOK && arg1 == local && arg2 == remote
 //@   site store state#1 assert C03 succeeded-only-after-matched-transaction: s.agent.gTxOK && s.agent.gSymOK && object == pair && pair != nil && value == pairSucceeded
@@ -105,6 +106,7 @@ package ice
 //@   ensures C20 superseded-deferred-nomination-never-selects: deferredSuperseded ==> s.agent.getSelectedPair() == cast(selectedBefore, *CandidatePair)
 //@   site call handleInboundBindingSuccess#1 ghost s.agent.gTxOK := result0
 //@   site call responseSymmetric#1 assert C02 symmetric-check-after-transaction: s.agent.gTxOK && arg0 == pendingRequest
+//@   site call responseSymmetric#1 assert C03 C02 checked-against-the-candidate-the-response-arrived-on: arg1 == local
 //@   site call responseSymmetric#1 ghost s.agent.gSymOK := result
 //@   site call findPair#1 assert C02 pair-lookup-after-checks: s.agent.gTxOK && s.agent.gSymOK && arg1 == local && arg2 == remote
 //@   site store state#1 assert C03 succeeded-only-after-matched-transaction: s.agent.gTxOK && s.agent.gSymOK && object == pair && pair != nil && value == pairSucceeded
@@ -202,3 +204,20 @@ package ice
 //@   site call renominateCandidate#1 assert renominates-the-pair-it-judged-better: arg1 == bestPair.Local && arg2 == bestPair.Remote && arg0 == s.agent
 //@   site call shouldRenominate#1 assert compares-the-selected-pair-with-the-best-one: arg1 == currentPair && arg2 == bestPair && currentPair != nil && bestPair != nil
 //@ enumerate C20 C03 calls ice.(*Agent).renominateCandidate in (*Agent).RenominateCandidate, (*controllingSelector).checkForAutomaticRenomination
+
+// RFC 8445 7.2.5.2.1, both halves: a success response validates a pair only if it came from the request's
+// destination over the same transport AND arrived on the local candidate the request was sent from - a
+// response to a check of (L1,R) that shows up on L2 is not a check of (L2,R).
+//@ func responseSymmetric
+//@   props C03 C02
+//@   opt nosafety
+//@   requires pendingRequest != nil
+//@   ghostvar sameLocal bool = false
+//@   site call Equal#1 assert compares-the-recorded-source-with-the-candidate-the-response-arrived-on: recv == pendingRequest.source && arg0 == local
+//@   site call Equal#1 ghost sameLocal := result
+//@   ensures a-response-counts-only-on-the-local-candidate-its-request-was-sent-from: result && pendingRequest.source != nil ==> sameLocal
+
+//@ func (*Agent).sendBindingRequest
+//@   props C03 C02
+//@   opt nosafety
+//@   site call append#1 assert records-the-local-candidate-the-request-leaves-from: len(arg1) == 1 && arg1[0].source == local
